@@ -280,9 +280,9 @@ psf_get_be16 (const uint8_t *ptr, int offset)
 */
 
 static inline void
-endswap_short_array (short *ptr, int len)
+endswap_short_array (short *ptr, int64_t len)
 {
-	for (int i = 0 ; i < len ; i++)
+	for (int64_t i = 0 ; i < len ; i++)
 	{	short temp = ptr [i] ;
 		ptr [i] = ENDSWAP_16 (temp) ;
 		} ;
@@ -297,9 +297,9 @@ endswap_short_copy (short *dest, const short *src, int len)
 } /* endswap_short_copy */
 
 static inline void
-endswap_int_array (int *ptr, int len)
+endswap_int_array (int *ptr, int64_t len)
 {
-	for (int i = 0 ; i < len ; i++)
+	for (int64_t i = 0 ; i < len ; i++)
 	{	int temp = ptr [i] ;
 		ptr [i] = ENDSWAP_32 (temp) ;
 		} ;
